@@ -12,32 +12,21 @@ TECH = "bounded model checking of the real code: Kani 0.68 harnesses (kani::any 
 # property -> (level text, level note, design ref, technique suffix)
 CLAIMS = {
     "C01": (
-        "Completeness is decided layer by layer on the real code: LM-OTS signer/verifier/public-key transcripts under recording hashers (same Q pre-image, same "
-        "digits a_i, signer chain i runs 0->a_i from x_i, verifier a_i->2^w-1 from y_i, key 0->2^w-1 from x_i), the signer's authentication-path rule for every leaf "
-        "of trees of height 5..25, the HSS signing structure for tall multi-level shapes over an LMS-layer contract with every counter of the lifetime symbolic "
-        "(roll-over included), and parser acceptance of everything a key with the maximum level count produces.",
-        "Layer composition (chain composability, LMS verify walk vs signer path) is argued on paper in DESIGN.md; LM-OTS instances n=16 (W8, W4) and n=32 (W8); "
-        "real SHA-256/SHAKE256 digests and end-to-end runs on real trees are outside (symbolic execution of one 4-leaf signing run exceeds an hour).",
-        "DESIGN.md section 3 C01", "Rec/RecSum transcript equality + LMS-layer contract stubs"),
+        "Completeness is only partly decided in this round, on the real code: the signer's authentication path is the sibling rule for every leaf of trees of height 5..25 (tree nodes by contract), the HSS expansion + signing structure for a tall one-level shape with every counter symbolic (LMS layer by contract), the top-level seed derivation hashes only the seed's n bytes (keygen and a reloaded key agree), and the parser accepts everything a key with the maximum level count produces.",
+        'NOT decided here: LM-OTS sign/verify agreement (the transcript harnesses abort in CBMC and are unregistered), the LMS verify walk, multi-level end-to-end runs, real SHA-256/SHAKE256 digests. The 8-level signing defect was found by a native run and repaired (0f30f77).',
+        "DESIGN.md sections 3 and 8.3 C01", 'LMS-layer / tree-node contract stubs; Rec transcripts'),
     "C02": (
-        "Structural half of RFC 8554 verification, for every input inside the shape bounds: hss::verify::verify on arbitrary parsed signature structures against "
-        "arbitrary public keys accepts only if level counts, all type codes and leaf ranges are consistent (digests are havoc so a missing check cannot hide behind a "
-        "hash mismatch), and the parsers map exact-shape byte strings to exactly the RFC fields at the RFC offsets and reject +-1 byte.",
-        "Shapes n=16/W8/H5, one and two levels; level counts concrete per harness instance; the hash-dependent half (the digests that decide acceptance are the RFC's) "
-        "is covered for LM-OTS by the C07 transcripts, the LMS tree walk is outside this round.",
-        "DESIGN.md section 3 C02", ""),
+        'Structural half of RFC 8554 verification, for every input inside the shape bounds: hss::verify::verify on arbitrary parsed signature structures against arbitrary public keys accepts only if level counts, all type codes and leaf ranges are consistent (digests are havoc so a missing check cannot hide behind a hash mismatch), and the parsers map exact-shape byte strings to exactly the RFC fields at the RFC offsets and reject +-1 byte.',
+        'Shapes n=16/W8/H5, one and two levels; level counts concrete per harness instance; the hash-dependent half (which bytes are hashed to decide acceptance) is not decided in this round.',
+        "DESIGN.md sections 3 and 8.3 C02", ''),
     "C03": (
-        "One-step obligations on an arbitrary valid state instead of explored histories: the counter->leaf decomposition is the mixed-radix rule and injective for every "
-        "shape of 1..8 levels and every counter; one signing step hands the callback exactly counter+1 (or the wiped key), releases leaf indices that are the digits of "
-        "the input counter on every level, and child tree identity depends only on (parent seed, parent I, parent leaf).",
-        "Induction over the history is a paper step (DESIGN.md); HSS step over an LMS-layer contract; concurrency outside (Kani has none).",
-        "DESIGN.md section 3 C03", "LMS-layer contract stubs; Rec transcripts"),
+        'One-step obligations on an arbitrary valid state instead of explored histories: the counter->leaf decomposition is the mixed-radix rule and injective for every shape of 1..8 levels and every counter; expansion + signing of a tall one-level key uses exactly the digit of the input counter and refuses a second signature; one signing step hands the callback exactly counter+1 (or the wiped key) and releases iff accepted; child tree identity depends only on (parent seed, parent I, parent leaf).',
+        'Induction over the history is a paper step (DESIGN.md); HSS-level operations over contracts (listed as stubs); multi-level HSS instances are unregistered (experimental); concurrency outside (Kani has none).',
+        "DESIGN.md sections 3 and 8.3 C03", 'contract stubs; Rec transcripts'),
     "C04": (
-        "For every key byte string (malformed, wiped, truncated) no callback and no signature; when signing proper fails no callback; for usable keys of tall shapes "
-        "(every counter, both callback outcomes) exactly one callback with the complete successor and a signature iff it accepted; the in-memory SigningKey ends up with "
-        "exactly that successor.",
-        "Expansion / LMS layer replaced by contracts in the quick tier (listed as stubs in the evidence); real-code 4-leaf instances are thorough-tier only.",
-        "DESIGN.md section 3 C04", "contract stubs for the layers below hss_sign_core"),
+        'For every key byte string of every length (malformed, wiped, truncated) no callback and no signature, and the exact acceptance set of the key loader; when signing proper fails no callback; for a usable tall one-level key (every counter, both callback outcomes) exactly one callback with the complete successor and a signature iff it accepted.',
+        'Both HSS-level operations replaced by light contracts in the protocol harness, the expansion by a failing contract in the malformed-key harness (listed as stubs); real-code 4-leaf instances and multi-level shapes did not finish and are unregistered (experimental).',
+        "DESIGN.md sections 3 and 8.3 C04", 'contract stubs for the operations below hss_sign_core'),
     "C05": (
         "Accounting arithmetic exact for every shape of 1..8 levels and every counter (lifetime = leaves - counter, increment, exhaustion threshold), wipe on the last "
         "leaf (counter 0, parameters 0xff, seed 0, same length) for every shape and seed, refusal of wiped keys, lifetime before/after one signature.",
@@ -48,19 +37,17 @@ CLAIMS = {
         "Bounded: buffers up to the per-harness caps; digests havoc; Winternitz chain summarised by the HashChain override in verify-level harnesses.",
         "DESIGN.md section 3 C06", ""),
     "C07": (
-        "Tables and lengths against the RFC formulas for all 12 (n,w) x 6 heights; serialisation layout of LMS public keys and signatures for arbitrary field contents; "
-        "LM-OTS signing content by transcript (Q pre-image I|q|0x8181|C|msg, chain i iterated a_i = coef(Q||Cksm(Q)) times with the Appendix-B shift, randomizer "
-        "derivation, default chain loop step layout with 16-bit chain index), authentication path = sibling rule for every leaf.",
-        "Deviating checksum shifts for three (n,w) pairs are reported under C12 (known findings); instances n=16/W8,W4 and n=32/W8.", "DESIGN.md section 3 C07", "Rec/RecSum transcripts"),
+        'Tables and lengths against the RFC formulas for all 12 (n,w) x 6 heights; serialisation layout of LMS public keys and signatures for arbitrary field contents; coef = RFC coef; the default chain loop hashes I|q|u16(i)|u8(j)|prev for a symbolic 16-bit chain index; randomizer derivation; authentication path = sibling rule for every leaf.',
+        'The LM-OTS signing content (Q pre-image, chain i iterated a_i times) is NOT decided: those transcript harnesses abort in CBMC and are unregistered. Deviating checksum shifts for three (n,w) pairs are reported under C12 (known findings).',
+        "DESIGN.md sections 3 and 8.3 C07", 'Rec transcripts'),
     "C08": (
-        "Key blob layout / nibble packing / round trip for every parameter list (1..8 levels, all W x H), seed and counter; HSS public key layout; derivation transcripts "
-        "against the hash-sigs layout: top-seed hashing (three 55-byte queries), child seed/identifier, x_q[i], K = H(I|q|0x8080|y..), chain step layout.",
-        "Reference = my transcription of the hash-sigs layout (no reference binary in the sandbox); tree node hashing and real SHA/SHAKE wrappers outside this round.",
-        "DESIGN.md section 3 C08", "Rec/RecSum transcripts"),
+        "Key blob layout / nibble packing / round trip for every parameter list (1..8 levels, all W x H), seed and counter; HSS public key layout; derivation transcripts against the hash-sigs layout: top-seed hashing (three 55-byte queries, only the seed's n bytes), child seed/identifier and randomizer (55-byte PRNG block), x_q[i] for p <= 18 chains, K = H(I|q|0x8080|y..) (thorough), chain step layout.",
+        'Reference = my transcription of the hash-sigs layout (no reference binary in the sandbox); chain indices >= 256 (n=32/W1), tree node hashing and the SHA/SHAKE wrappers are not decided in this round.',
+        "DESIGN.md sections 3 and 8.3 C08", 'Rec/RecSum transcripts'),
     "C09": (
-        "2-run purity under a deterministic keyed toy hash family: derivation units twice with unrelated work in between; HSS-level signing twice from the same key bytes "
-        "and once through the in-memory SigningKey (byte-identical signatures and successor keys); the aux MAC key depends on the seed.",
-        "HSS level over the LMS-layer contract; other threads/processes are outside (Kani models no concurrency).", "DESIGN.md section 3 C09", "2-safety harness"),
+        '2-run purity under a deterministic keyed toy hash family for the derivation units (root seed, child seed, randomizer, chain start values) with unrelated work in between; the in-memory SigningKey ends in exactly the successor the byte-level function hands out (every counter incl. the last leaf); the aux MAC key depends on the seed.',
+        'HSS-level 2-run harnesses are unregistered (vacuous for a reason not understood); other threads/processes are outside (Kani models no concurrency).',
+        "DESIGN.md sections 3 and 8.3 C09", '2-safety harness'),
     "C10": (
         "Level selection / shrunk length for every buffer length; layout of a fresh buffer; the MAC written by key generation and the MAC checked before any read-back are "
         "the same HMAC over exactly the level area with key H(0^20|0xfdfd|seed), compared over exactly n trailing bytes (odd and even cached levels; missing, short, long tail).",
